@@ -41,6 +41,10 @@ pub struct Params {
     /// the uplink is narrow (16 bytes in flight) and every packet carries 200 bytes of padding behind its payload:
     /// the keep-alive request reaches the peer (and is answered) while the monitor's write is still in progress
     pub padded_narrow_uplink: bool,
+    /// (call index, flush?): that one write / flush call of the session's transport returns ErrorKind::Interrupted once.
+    /// The session may be closed because of it (a transport error, not the monitor's verdict) — but a peer that falls
+    /// silent must still be noticed: only the dead-session clauses are judged
+    pub transport_fault: Option<(usize, bool)>,
     /// the largest value the command line accepts (u64::MAX seconds) instead of interval_ms / timeout_ms
     pub huge_interval: bool,
     pub huge_timeout: bool,
@@ -66,6 +70,9 @@ pub fn make(p: Params) -> ScenarioFn {
             let blackhole = matches!(p.silence, Silence::BlackholeAfter(_));
             let c2s_cfg = if blackhole { PipeCfg::new("c2s").latency(d).capacity(300) } else if p.padded_narrow_uplink { PipeCfg::new("c2s").latency(d).capacity(16) } else { PipeCfg::new("c2s").latency(d) };
             let mut link = peer_link(PipeCfg::new("s2c").latency(d), c2s_cfg);
+            if let Some((k, flush)) = p.transport_fault {
+                if flush { link.peer.out.set_flush_interrupt_call(k) } else { link.peer.out.set_write_interrupt_call(k) }
+            }
             let hb = SessionHeartbeatConfig {
                 interval: if p.huge_interval { Duration::from_secs(u64::MAX) } else { Duration::from_millis(p.interval_ms) },
                 timeout: if p.huge_timeout { Duration::from_secs(u64::MAX) } else { Duration::from_millis(p.timeout_ms) },
@@ -220,6 +227,15 @@ pub fn make(p: Params) -> ScenarioFn {
                 t += step;
             }
             let healthy = p.silence == Silence::Never;
+            if healthy && p.transport_fault.is_some() {
+                // a session that ends because its transport reported an error was not closed by the monitor
+                if let Some(t) = traffic {
+                    t.abort();
+                }
+                peer_task.abort();
+                let _ = sess.close().await;
+                return out;
+            }
             let la_ms = *last_answer_ms.lock().unwrap();
             out.obs = format!("closed_at={closed_at:?} last_answer={la_ms:?}");
             if p.huge_interval || p.huge_timeout {
@@ -287,7 +303,7 @@ pub fn make(p: Params) -> ScenarioFn {
 }
 
 pub fn params_json(p: &Params) -> serde_json::Value {
-    json!({"interval_ms": p.interval_ms, "timeout_ms": p.timeout_ms, "one_way_delay_ms": p.delay_ms, "silence": format!("{:?}", p.silence), "traffic": p.traffic, "peer_chatter": p.chatter, "padded_narrow_uplink": p.padded_narrow_uplink, "huge_interval": p.huge_interval, "huge_timeout": p.huge_timeout})
+    json!({"interval_ms": p.interval_ms, "timeout_ms": p.timeout_ms, "one_way_delay_ms": p.delay_ms, "silence": format!("{:?}", p.silence), "traffic": p.traffic, "peer_chatter": p.chatter, "padded_narrow_uplink": p.padded_narrow_uplink, "interrupted_transport_call": p.transport_fault.map(|(k, fl)| format!("{} #{k}", if fl { "flush" } else { "write" })), "huge_interval": p.huge_interval, "huge_timeout": p.huge_timeout})
 }
 
 pub fn all_params(tier: Tier) -> Vec<(Params, usize)> {
@@ -312,14 +328,14 @@ pub fn all_params(tier: Tier) -> Vec<(Params, usize)> {
                 }
             }
             for d in delays {
-                v.push((Params { interval_ms: i * 1000, timeout_ms: t * 1000, delay_ms: d, silence: Silence::BlackholeAfter(k), traffic: true, chatter: false, padded_narrow_uplink: false, huge_interval: false, huge_timeout: false }, if thorough && d == 1 { 1 } else { 0 }));
+                v.push((Params { interval_ms: i * 1000, timeout_ms: t * 1000, delay_ms: d, silence: Silence::BlackholeAfter(k), traffic: true, chatter: false, padded_narrow_uplink: false, transport_fault: None, huge_interval: false, huge_timeout: false }, if thorough && d == 1 { 1 } else { 0 }));
             }
         }
     }
     // the largest values the command line accepts
     for (hi, ht) in [(false, true), (true, false), (true, true)] {
         for s in [Silence::Never, Silence::FromStart, Silence::AfterResponse(1)] {
-            v.push((Params { interval_ms: 1000, timeout_ms: 1000, delay_ms: 1, silence: s, traffic: false, chatter: false, padded_narrow_uplink: false, huge_interval: hi, huge_timeout: ht }, 0));
+            v.push((Params { interval_ms: 1000, timeout_ms: 1000, delay_ms: 1, silence: s, traffic: false, chatter: false, padded_narrow_uplink: false, transport_fault: None, huge_interval: hi, huge_timeout: ht }, 0));
         }
     }
     // a narrow, padded uplink: the request is answered while the monitor is still inside its write
@@ -328,7 +344,18 @@ pub fn all_params(tier: Tier) -> Vec<(Params, usize)> {
         // make the transmission time of one padded packet exceed the timeouts — outside "delay below the timeout")
         for d in [0u64, 1] {
             for s in [Silence::Never, Silence::AfterResponse(2), Silence::FromStart] {
-                v.push((Params { interval_ms: i * 1000, timeout_ms: t * 1000, delay_ms: d, silence: s, traffic: false, chatter: false, padded_narrow_uplink: true, huge_interval: false, huge_timeout: false }, if thorough { 2 } else { 1 }));
+                v.push((Params { interval_ms: i * 1000, timeout_ms: t * 1000, delay_ms: d, silence: s, traffic: false, chatter: false, padded_narrow_uplink: true, transport_fault: None, huge_interval: false, huge_timeout: false }, if thorough { 2 } else { 1 }));
+            }
+        }
+    }
+    // one transport call (the keep-alive write itself, the first flush, ...) returns Interrupted once; later the peer
+    // falls silent: it must still be closed in time (or have been closed before)
+    for (i, t) in [(1u64, 2u64), (2, 1), (2, 2)] {
+        for s in [Silence::FromStart, Silence::AfterResponse(1), Silence::AfterResponse(3)] {
+            for (flush, n) in [(false, 9usize), (true, 7)] {
+                for k in 0..n {
+                    v.push((Params { interval_ms: i * 1000, timeout_ms: t * 1000, delay_ms: 1, silence: s, traffic: false, chatter: false, padded_narrow_uplink: false, transport_fault: Some((k, flush)), huge_interval: false, huge_timeout: false }, 0));
+                }
             }
         }
     }
@@ -357,10 +384,10 @@ pub fn all_params(tier: Tier) -> Vec<(Params, usize)> {
                         }
                         // schedule deviations on a subset: small configurations
                         let bound = if *i <= 2 && *t <= 3 && d <= 1 && (thorough || !traffic) { 1 } else { 0 };
-                        v.push((Params { interval_ms: i_ms, timeout_ms: t_ms, delay_ms: d, silence: *s, traffic, chatter: false, padded_narrow_uplink: false, huge_interval: false, huge_timeout: false }, bound));
+                        v.push((Params { interval_ms: i_ms, timeout_ms: t_ms, delay_ms: d, silence: *s, traffic, chatter: false, padded_narrow_uplink: false, transport_fault: None, huge_interval: false, huge_timeout: false }, bound));
                         // a peer that keeps talking (data, its own keep-alive requests, padding) without answering
                         if !traffic && (thorough || matches!(s, Silence::Never | Silence::FromStart | Silence::AfterResponse(1) | Silence::BeforeResponse(2))) {
-                            v.push((Params { interval_ms: i_ms, timeout_ms: t_ms, delay_ms: d, silence: *s, traffic, chatter: true, padded_narrow_uplink: false, huge_interval: false, huge_timeout: false }, 0));
+                            v.push((Params { interval_ms: i_ms, timeout_ms: t_ms, delay_ms: d, silence: *s, traffic, chatter: true, padded_narrow_uplink: false, transport_fault: None, huge_interval: false, huge_timeout: false }, 0));
                         }
                     }
                 }
